@@ -54,6 +54,7 @@ type Prog struct {
 	guardedBy         map[string][]guardedField // fa function of a mutex field -> guarded fields
 	axTriggers map[string][]axTrigger
 	privFa     map[string]int
+	muOwner    map[string]muOwnerInfo
 	ContractFilesUsed []string
 	MirrorUsed        []string
 }
@@ -492,6 +493,7 @@ func shortPkg(path string) string {
 func (p *Prog) buildGuards() {
 	p.guardOf = map[string]guardInfo{}
 	p.guardedBy = map[string][]guardedField{}
+	p.muOwner = map[string]muOwnerInfo{}
 	u := &Unit{P: p}
 	for key, ts := range p.TypeSpecs {
 		i := strings.LastIndex(key, ".")
@@ -524,6 +526,9 @@ func (p *Prog) buildGuards() {
 			}
 			ffn := u.fieldFn(tn.Type(), fi)
 			mfn := u.fieldFn(tn.Type(), mi)
+			if nt, ok := tn.Type().(*types.Named); ok {
+				p.muOwner[mfn] = muOwnerInfo{key: key, typ: nt, pkg: pk}
+			}
 			p.guardOf[ffn] = guardInfo{typ: tn.Name(), field: f, mu: mu, muFn: mfn, tags: ts.Tags}
 			p.guardedBy[mfn] = append(p.guardedBy[mfn], guardedField{faFn: ffn, typ: st.Field(fi).Type(), name: f})
 		}
